@@ -10,7 +10,7 @@ from .. import matrixgen as mg
 
 ID = "C01"
 MODULE = "LasioProofs.Props.C01"
-EXTRA_MODULES = ["LasioProofs.Props.C01File"]
+EXTRA_MODULES = ["LasioProofs.Props.C01File", "LasioProofs.Props.C01FileDlm"]
 RULE = ("(i) `'%.Nf' % x` vs model fmtFixed on >= 10 000 binary64 values per run (random bit patterns, subnormals, 1e22, 1e308, 5e-324, "
         "decimal ties (k+0.5)/10^N, N in 0..12 and a few larger), plus `%w.Nf` and the supported/unsupported classification of format "
         "strings; (ii) textwrap.TextWrapper(width).wrap(row) vs model textWrap on data-like rows (blank/TAB spacers, widths 1..200), "
@@ -601,6 +601,6 @@ LEVEL_TEXT = ("Machine-checked Lean 4 theorems (C01_*) about an executable model
               "re-printing a printed decimal is the identity. The model is tied to lasio/writer.py by a byte-exact comparison of the emitted "
               "data section over matrix x option records, and the end-to-end property (write, then read with both engines) is evaluated on "
               "the real code by an exact-rational oracle for every explored case.")
-LEVEL_NOTE = ("WHOLE FILE (Props/C01File.lean): C01_file — Tf.readFull of the text of one write call (header lines ++ ~A line ++ body) returns the five header sections of C03_file, all four steering values (vers, WRAP, NULL, no DLM) and exactly one data window handed to readData; C01_file_wrapYes / C01_file_unwrapped give its curves as the written matrix; C01_file_samples restates the property (same number of curves and rows, NaN iff NaN outside the index, index never nulled, finite samples within half a unit of the last digit); C01_file_writeObj connects to Wo.writeObj. Not covered there: a DLM item, lines after the data section, text columns. Theorems are about the writer model; the reader half of the round trip is covered here by the oracle on explored inputs only "
+LEVEL_NOTE = ("With the default `DLM . SPACE` item of lasio.LASFile() in ~Version (Props/C01FileDlm.lean, hypothesis DlmOK instead of 'no DLM item'): C03_file_dlm, C01_file_dlm(+_wrapYes, _unwrapped), C11_file_fixed_point_dlm / C11_file_iterate_dlm (all four steering values equal), C12_file_dlm; counter-examples DLM COMMA over blank-separated data (known finding dlm-not-space), DLM FOO (KeyError); two DLM items are ignored by the reader. WHOLE FILE (Props/C01File.lean): C01_file — Tf.readFull of the text of one write call (header lines ++ ~A line ++ body) returns the five header sections of C03_file, all four steering values (vers, WRAP, NULL, no DLM) and exactly one data window handed to readData; C01_file_wrapYes / C01_file_unwrapped give its curves as the written matrix; C01_file_samples restates the property (same number of curves and rows, NaN iff NaN outside the index, index never nulled, finite samples within half a unit of the last digit); C01_file_writeObj connects to Wo.writeObj. Not covered there: a DLM item, lines after the data section, text columns. Theorems are about the writer model; the reader half of the round trip is covered here by the oracle on explored inputs only "
               "(its model and theorems are C02/C05/C09). model = code holds on the explored inputs. Trusted: Lean kernel, driver compilation, "
               "CPython '%f' / float() / textwrap as modelled and compared on every run.")
